@@ -173,6 +173,49 @@ class TwoField:
         return 0.5 * (x + y)
 
 
+class ThreeField(TwoField):
+    """TwoField plus a third field x that follows h:   V3 = V2(h, s) + 1/2 mx2 (x - a h)^2.
+    Phases in closed form: "H" (v, 0, a v), "S" (0, w, 0), "O" (0, 0, 0); V at the minima, existence intervals and Tc are
+    those of the two-field model (the extra term vanishes on x = a h and its Hessian contribution is positive
+    semi-definite), but the third field changes across the wall, so its width and offset are determined."""
+    nf = 3
+
+    def __init__(self, mx2=5000.0, a=0.6, u=1.0, perm=(0, 1, 2), sign=(1, 1, 1), shift=(0.0, 0.0, 0.0), **kw):
+        TwoField.__init__(self, u=u, **kw)
+        self.mx2, self.a = mx2 * u * u, a
+        self.perm, self.sign, self.shift = tuple(perm), tuple(sign), tuple(s * u for s in shift)
+
+    def to_canonical(self, f):
+        f = np.asarray(f, float)
+        out = np.empty_like(f)
+        for j in range(3):
+            out[..., self.perm[j]] = (f[..., j] - self.shift[j]) * self.sign[j]
+        return out
+
+    def from_canonical(self, f):
+        f = np.asarray(f, float)
+        out = np.empty_like(f)
+        for j in range(3):
+            out[..., j] = self.sign[j] * f[..., self.perm[j]] + self.shift[j]
+        return out
+
+    def V(self, f, T):
+        g = self.to_canonical(f)
+        return self.Vc(g[..., 0], g[..., 1], np.asarray(T, float)) + 0.5 * self.mx2 * (g[..., 2] - self.a * g[..., 0]) ** 2
+
+    def minimum(self, br, T):
+        T = np.asarray(T, float)
+        z = np.zeros(T.shape)
+        if br == "H":
+            v = np.sqrt(np.maximum((self.muh2 - self.ch * T**2) / self.lh, 0))
+            g = np.stack([v, z, self.a * v], axis=-1)
+        elif br == "S":
+            g = np.stack([z, np.sqrt(np.maximum((self.mus2 - self.cs * T**2) / self.ls, 0)), z], axis=-1)
+        else:
+            g = np.stack([z, z, z], axis=-1)
+        return self.from_canonical(g)
+
+
 def nearest_branch(model, fields, T):
     """id of the closed-form branch nearest to `fields` at temperature T (branches that do not
     exist at T are still candidates: a point beyond a spinodal is then 'nearest to nothing')"""
@@ -220,4 +263,6 @@ def pipeline_model(name, u=1.0, **kw):
     LTE deflagration); two-field: alpha_n ~ 0.005 at Tn = 0.92 Th"""
     if name == "one":
         return OneField(E=0.155, c=kw.pop("c", 10.0), u=u)
+    if name == "three":
+        return ThreeField(c=5.0, u=u, **kw)
     return TwoField(c=5.0, u=u, **kw)
